@@ -1,8 +1,23 @@
-//! C14/C15: number-field elements (src/algebraic.rs), orders, multiplication tables.
+//! C14/C15: number-field elements (src/algebraic.rs), multiplication tables (src/mult_table.rs),
+//! orders (src/order.rs).  Same operations as ocaml/ops_algorder.ml.
+//!
+//! An order argument is a term naming the constructor path (the field of `Order` is private):
+//!   [basis M]      Order::from_basis(M)
+//!   [sg f e]       Order::singly_gen(&Algebraic { min_poly: f, expr: e })
+//!   [sgnew f]      Order::singly_gen(&Algebraic::new(f))
+//!   [triv f]       order::trivial_order_monic(&Algebraic::new(f))
+//!   [nonmonic f]   order::non_monic_initial_order(&Algebraic::new(f))
+//! Operations on an order built this way answer [basis result] (the stored basis first).
 use crate::ops::poly::{qp, tqp, zp};
 use crate::term::*;
 use num::traits::Pow;
+use num::BigInt;
 use rust_number_theory::algebraic::Algebraic;
+use rust_number_theory::discriminant::discriminant;
+use rust_number_theory::integral_basis::find_integral_basis;
+use rust_number_theory::mult_table::MultTable;
+use rust_number_theory::order::{self, Order};
+use std::panic::{catch_unwind, AssertUnwindSafe};
 
 fn alg(f: &Term, e: &Term) -> Algebraic {
     // with_expr has a debug_assert on the degree; build the struct directly as the library's own constructors do
@@ -12,8 +27,86 @@ fn alg(f: &Term, e: &Term) -> Algebraic {
     }
 }
 
+fn ord(t: &Term) -> Order {
+    let l = t.list();
+    match (l[0].id(), l.len()) {
+        ("basis", 2) => Order::from_basis(&l[1].rmat()),
+        ("sg", 3) => Order::singly_gen(&alg(&l[1], &l[2])),
+        ("sgnew", 2) => Order::singly_gen(&Algebraic::new(zp(&l[1]))),
+        ("triv", 2) => order::trivial_order_monic(&Algebraic::new(zp(&l[1]))),
+        ("nonmonic", 2) => order::non_monic_initial_order(&Algebraic::new(zp(&l[1]))),
+        _ => panic!("harness: expected order constructor, got {t}"),
+    }
+}
+
+fn table(t: &Term) -> MultTable {
+    MultTable::new(t.list().iter().map(|m| m.imat()).collect())
+}
+
+/// theta only supplies the minimal polynomial to get_mult_table / discriminant
+fn theta(f: &Term) -> Algebraic {
+    Algebraic {
+        min_poly: zp(f),
+        expr: qp(&tl(vec![])),
+    }
+}
+
+fn with_basis(o: &Order, r: Term) -> Term {
+    tl(vec![trmat(&o.basis()), r])
+}
+
+fn tpair_inv(p: (Vec<BigInt>, BigInt)) -> Term {
+    tl(vec![tints(&p.0), tb(&p.1)])
+}
+
+/// The first bracketed nest after `key` in a derived `Debug` output (BigInt prints in decimal), as a term.
+/// Used where the library offers no accessor: `MultTable { table: [[[..]]] }`,
+/// `Ideal { hnf: HNF([[..], ..]), mult_table: .. }`.
+fn nested_after(s: &str, key: &str) -> Term {
+    let start = s.find(key).unwrap_or_else(|| panic!("harness: no {key} in {s}")) + key.len();
+    let mut depth = 0i32;
+    let mut end = start;
+    for (k, c) in s[start..].char_indices() {
+        match c {
+            '[' => depth += 1,
+            ']' => {
+                depth -= 1;
+                if depth == 0 {
+                    end = start + k + 1;
+                    break;
+                }
+            }
+            _ => {}
+        }
+    }
+    let txt: String = s[start..end].chars().map(|c| if c == ',' { ' ' } else { c }).collect();
+    let toks = parse_line(&txt).unwrap_or_else(|e| panic!("harness: cannot parse {txt}: {e}"));
+    toks[0].clone()
+}
+
+fn ttable(mt: &MultTable) -> Term {
+    nested_after(&format!("{:?}", mt), "table: ")
+}
+
+fn tinvdiff(mt: &MultTable) -> Term {
+    let fi = mt.get_inv_diff();
+    tl(vec![tb(fi.denom()), nested_after(&format!("{:?}", fi.numer()), "HNF(")])
+}
+
+/// [ok v] | [panic class] for a sub-computation whose panic must not hide what was computed before it
+fn caught(f: impl FnOnce() -> Term) -> Term {
+    match catch_unwind(AssertUnwindSafe(f)) {
+        Ok(t) => tl(vec![tid("ok"), t]),
+        Err(_) => {
+            let msg = crate::LAST_PANIC.with(|p| p.borrow().clone());
+            tl(vec![tid("panic"), tid(crate::classify(&msg))])
+        }
+    }
+}
+
 pub fn dispatch(op: &str, a: &[Term]) -> Option<Term> {
     Some(match op {
+        "alg_new" => tqp(&Algebraic::new(zp(&a[0])).expr),
         "alg_add" => tqp(&(&alg(&a[0], &a[1]) + &alg(&a[0], &a[2])).expr),
         "alg_sub" => tqp(&(&alg(&a[0], &a[1]) - &alg(&a[0], &a[2])).expr),
         "alg_mul" => tqp(&(&alg(&a[0], &a[1]) * &alg(&a[0], &a[2])).expr),
@@ -21,6 +114,96 @@ pub fn dispatch(op: &str, a: &[Term]) -> Option<Term> {
         "alg_pow_u64" => tqp(&Pow::pow(&alg(&a[0], &a[1]), a[2].u64()).expr),
         "alg_theta_pow" => tqp(&Pow::pow(&Algebraic::new(zp(&a[0])), a[1].int()).expr),
         "alg_as_coefs" => trats(&alg(&a[0], &a[1]).as_coefs()),
+        "alg_law" => {
+            let (x, y, z) = (alg(&a[0], &a[1]), alg(&a[0], &a[2]), alg(&a[0], &a[3]));
+            let (s, t) = (a[4].int(), a[5].int());
+            let pair = |u: &Algebraic, v: &Algebraic| tl(vec![tqp(&u.expr), tqp(&v.expr)]);
+            let xy = &x * &y;
+            let xy_z = &xy * &z;
+            let yz = &y * &z;
+            let x_yz = &x * &yz;
+            let x_ypz = &x * &(&y + &z);
+            let xz = &x * &z;
+            let yx = &y * &x;
+            let pst = Pow::pow(&x, &s + &t);
+            let ps = Pow::pow(&x, s);
+            let pt = Pow::pow(&x, t);
+            let pspt = &ps * &pt;
+            tl(vec![pair(&xy_z, &x_yz), pair(&x_ypz, &(&xy + &xz)), pair(&xy, &yx), pair(&pst, &pspt)])
+        }
+        // explicit tables (fourth argument of mt_mul, the profile, is only read by the model)
+        "mt_deg" => ti(table(&a[0]).deg() as u64),
+        "mt_mul" => tints(&table(&a[0]).mul(&a[1].ints(), &a[2].ints())),
+        "mt_trace" => tb(&table(&a[0]).trace(&a[1].ints())),
+        "mt_norm" => tb(&table(&a[0]).norm(&a[1].ints())),
+        "mt_inv" => tpair_inv(table(&a[0]).inv(&a[1].ints())),
+        "mt_inv_diff" => tinvdiff(&table(&a[0])),
+        // orders
+        "ord_basis" => trmat(&ord(&a[0]).basis()),
+        "ord_deg" => ti(ord(&a[0]).deg() as u64),
+        "ord_eq" => {
+            let (x, y) = (ord(&a[0]), ord(&a[1]));
+            tbool(x == y)
+        }
+        "ord_index" => {
+            let (x, y) = (ord(&a[0]), ord(&a[1]));
+            tb(&order::index(&x, &y))
+        }
+        "ord_union" => {
+            let (x, y) = (ord(&a[0]), ord(&a[1]));
+            trmat(&order::union(&x, &y).basis())
+        }
+        // ord_disc O f -> [d r]: d = discriminant(f), r = O.discriminant(theta), each [ok v] | [panic class];
+        // the model is handed d (the polynomial discriminant is modelled elsewhere)
+        "ord_disc" => {
+            let o = ord(&a[0]);
+            let f = zp(&a[1]);
+            let d = caught(|| tb(&discriminant(&f)));
+            let r = caught(|| tb(&o.discriminant(&theta(&a[1]))));
+            tl(vec![d, r])
+        }
+        "ord_mult_table" => {
+            let o = ord(&a[0]);
+            let t = o.get_mult_table(&theta(&a[1]));
+            with_basis(&o, ttable(&t))
+        }
+        "ord_to_z_basis" => {
+            let o = ord(&a[0]);
+            let r = trats(&o.to_z_basis(&alg(&a[1], &a[2])));
+            with_basis(&o, r)
+        }
+        "ord_to_z_basis_int" => {
+            let o = ord(&a[0]);
+            let r = tints(&o.to_z_basis_int(&alg(&a[1], &a[2])));
+            with_basis(&o, r)
+        }
+        "omt_mul" => {
+            let o = ord(&a[0]);
+            let t = o.get_mult_table(&theta(&a[1]));
+            with_basis(&o, tints(&t.mul(&a[2].ints(), &a[3].ints())))
+        }
+        "omt_trace" => {
+            let o = ord(&a[0]);
+            let t = o.get_mult_table(&theta(&a[1]));
+            with_basis(&o, tb(&t.trace(&a[2].ints())))
+        }
+        "omt_norm" => {
+            let o = ord(&a[0]);
+            let t = o.get_mult_table(&theta(&a[1]));
+            with_basis(&o, tb(&t.norm(&a[2].ints())))
+        }
+        "omt_inv" => {
+            let o = ord(&a[0]);
+            let t = o.get_mult_table(&theta(&a[1]));
+            with_basis(&o, tpair_inv(t.inv(&a[2].ints())))
+        }
+        "omt_inv_diff" => {
+            let o = ord(&a[0]);
+            let t = o.get_mult_table(&theta(&a[1]));
+            with_basis(&o, tinvdiff(&t))
+        }
+        // implementation only: a source of maximal-order bases for the generators
+        "max_order_basis" => trmat(&find_integral_basis(&Algebraic::new(zp(&a[0]))).basis()),
         _ => return None,
     })
 }
